@@ -6,6 +6,7 @@ CONSTANTS
   MaxOther = 1
   MaxRefresh = 1
   RoundSize = 1
+  Batch = FALSE
   MinB = 1
   MaxB = 2
   Variant = "dropRetry"
